@@ -137,6 +137,8 @@ def fails_without_regular_file_named_files(sc, v):
     import copy
     import importlib
     def is_ff(t):
+        if t.get('m') in ('delete', 'mtime', 'flip', 'truncate', 'append', 'manifest', 'recompress'):
+            return False      # (does not create anything; e.g. the deletion of a DIRECTORY called files)
         return t.get('k', 'file') == 'file' and os.path.basename(t.get('p', '')) == 'files'
     sc2 = copy.deepcopy(sc)
     changed = False
